@@ -15,7 +15,7 @@ TInit == /\ tid \in 1..Len(Traces) /\ l = 2
          /\ pre = Traces[tid][1].pre /\ ext = Traces[tid][1].ext
 Run == pc # "Done" /\ Next /\ UNCHANGED <<tid, l>>
 \* "validator killed": the property demands only that nothing is left behind (DESIGN 5a)
-OnlyResidue == vout = "killed" /\ Validates(entry) /\ form = "valid"
+OnlyResidue == vout \in Killed /\ Validates(entry) /\ form = "valid"
 Observed ==
   /\ pc = "Done" /\ l <= Len(T) /\ Ev.ev = "observed"
   /\ Check("no_temp_residue", Ev.tmp = 0 /\ tmpfiles = {})
@@ -29,7 +29,8 @@ Observed ==
        /\ Check("validator_called_iff_validating", Ev.called = called)
        /\ Check("validator_saw_the_xform_file", called => Ev.sawfile)
        /\ Check("written_file_equals_library_result", out = "new" => Ev.out_equals_lib)
-       /\ Check("diagnostics_cleaned", (exc = "ODKValidateError" /\ vout = "reject") => Ev.msg_clean))
+       /\ Check("diagnostics_cleaned", (exc = "ODKValidateError" /\ vout \in {"reject", "reject_rc2"}) => Ev.msg_clean)
+       /\ Check("diagnostics_carried", (exc = "ODKValidateError" /\ vout \in {"reject", "reject_rc2", "reject_arbitrary", "corrupt_jar"}) => Ev.msg_carries))
   /\ l' = l + 1 /\ UNCHANGED <<tid, vars>>
 TNext == Run \/ Observed
 TSpec == TInit /\ [][TNext]_<<vars, tid, l>>
